@@ -81,7 +81,8 @@ size_t __wrap_fwrite(const void *b, size_t sz, size_t n, FILE *f) {
 }
 /* a failing fclose is a failing flush: what stdio still buffers never reaches the file */
 int __wrap_fclose(FILE *f) { if (hit(W_FCLOSE)) { __fpurge(f); __real_fclose(f); errno = ERR(ENOSPC); return EOF; } return __real_fclose(f); }
-#define LIB(x) do { in_lib = 1; x; in_lib = 0; } while (0)
+/* (errno is the caller's: every library call starts with a stale ERANGE in it) */
+#define LIB(x) do { in_lib = 1; errno = ERANGE; x; in_lib = 0; } while (0)
 
 struct step { int k; unsigned pos, len; int cap; };
 struct res {
@@ -258,7 +259,7 @@ static void run_pass(struct op *ops, int nops, unsigned char fill, struct res *r
       int *dp = strchr(o->flags, 'z') ? NULL : &x->dest;   /* 'z': the caller passes no place for the count */
       if (o->kind == 'N') { if (dep) LIB(x->ret = assemble_string_counting_chunks(s->al, txt, o->a, dp)); else LIB(x->ret = asm_assemble_string_counting_chunks(s->al, txt, o->a, dp)); }
       else if (o->kind == 'A') { if (dep) LIB(x->ret = assemble_str(s->al, txt)); else LIB(x->ret = asm_assemble_str(s->al, txt)); }
-      else if (o->kind == 'U') LIB(x->ret = asm_assemble_file_counting_chunks(s->al, txt, o->a, &x->dest));
+      else if (o->kind == 'U') LIB(x->ret = asm_assemble_file_counting_chunks(s->al, txt, o->a, dp));
       else { if (dep) LIB(x->ret = assemble_file(s->al, txt)); else LIB(x->ret = asm_assemble_file(s->al, txt)); }
       __real_free(txt);
       /* the string twin of a file call assembles the file's contents read by the harness */
